@@ -98,6 +98,9 @@ def finish(prop: str, tier: str, results: List[Result], t0: float,
     ok = [r for r in results if r.verdict == HOLDS]
     for line in known_lines or []:
         print(line)
+    import glob
+    for old in glob.glob(os.path.join(REPLAY_DIR, prop + "-*.json")):
+        os.remove(old)
     n = 0
     vlines = []
     for r in viol:
